@@ -12,11 +12,14 @@ Open Scope N_scope.
 
 Inductive case :=
 | CHist (tbl : list N) (ops : (nat -> N) -> list op) (obs : (nat -> N) -> list (res unit * dump))
+| CConc (tbl : list N) (pre : (nat -> N) -> list op) (obs : (nat -> N) -> list (res unit * dump))
+        (batch : (nat -> N) -> list op) (rs : list (res unit)) (final : (nat -> N) -> dump)
 | CRender (chain : N) (tx : list N) (idx : N) (text : list N).
 
 Definition check (c : case) : bool :=
   match c with
   | CHist tbl ops obs => check_hist tbl ops obs
+  | CConc tbl pre obs batch rs final => check_conc tbl pre obs batch rs final
   | CRender chain tx idx text =>
       bytes_eqb (render {| d_chain := chain; d_tx := tx; d_index := idx |}) text
   end.
